@@ -45,4 +45,5 @@ def run(ctx):
                 "bracket: node-removal primitives are called by gc / try_remove_node / the level views only and are gated by "
                 "reorder_gc_prepared / allow_node_removal.")
     ewho.run(ctx, F)
+    ewho.check_gate_initial(ctx, F)
     ctx.not_decided = "independence of results from eviction order as behaviour; hash quality"
